@@ -49,12 +49,23 @@ def make_universe():
         DuplicateFieldKeyBlock({"x"}, Entry("misc", "b", [Field("x", "1", 19), Field("x", "2", 19)], 18, "@misc{b,x=1,x=2}")),
         Entry("misc", "", [Field("z", "9", 21)], 20, "@misc{, z=9}"),
         String("A", '"s1"', 10, '@string{a = "s1"}'),  # differs from block 4 only in the letter case of its key
+        # instances of application-defined subclasses of the model classes are entries / strings like any other
+        _Article("article", "a", [Field("x", "1", 23)], 22, "@article{a, x=1}"),
+        _Macro("b", '"s4"', 24, '@string{b = "s4"}'),
     ]
     return u
 
 
-U_SIZE = 15
-U_SMALL = [0, 1, 2, 4, 5, 8]  # reduced universe of the exhaustive engine
+class _Article(Entry):
+    pass
+
+
+class _Macro(String):
+    pass
+
+
+U_SIZE = 17
+U_SMALL = [0, 1, 2, 4, 5, 8, 15]  # reduced universe of the exhaustive engine
 
 
 class Slot:
@@ -163,6 +174,21 @@ def _views_fail(lib, model, where, copy_of=None):
         views.update(map(id, v))
     if views != collections.Counter(map(id, blocks)):
         return (f"partition:{where}", "views do not partition blocks", "entries+strings+preambles+comments+failed_blocks == blocks")
+    # the lists / dict handed out above are the caller's (fresh objects on every read): emptying them changes nothing
+    # that the library reports afterwards (blocks and strings_dict are the library's own objects and are left alone)
+    pre, com, fai = lib.preambles, lib.comments, lib.failed_blocks
+    n_pre, n_com, n_fai = list(map(id, pre)), list(map(id, com)), list(map(id, fai))
+    for handed_out in (got_entries, got_strings, pre, com, fai):
+        del handed_out[:]
+    ed.clear()
+    again = lib.entries
+    if len(again) != len(exp_entries) or any(a is not b for a, b in zip(again, exp_entries)):
+        return (f"entries-view-after-caller-emptied-an-earlier-result:{where}", repr(again), repr(exp_entries))
+    ed2 = lib.entries_dict
+    if set(ed2) != set(model.entries) or any(ed2[k] is not model.entries[k] for k in ed2):
+        return (f"entries_dict-after-caller-emptied-an-earlier-result:{where}", repr(ed2), repr(model.entries))
+    if collections.Counter(map(id, lib.strings)) != collections.Counter(map(id, exp_strings)) or list(map(id, lib.preambles)) != n_pre or list(map(id, lib.comments)) != n_com or list(map(id, lib.failed_blocks)) != n_fai:
+        return (f"views-after-caller-emptied-an-earlier-result:{where}", "strings / preambles / comments / failed_blocks changed", "unchanged")
     return None
 
 
